@@ -208,8 +208,8 @@ PROPS.update({
         "assumptions": COMMON_ASSUME + ["dyn dispatch and Box are transparent (Rust semantics)"],
     },
     "C17": {
-        "level": "partial",
-        "text": "Kernel-checked: aliases (tell_blocking/ask_blocking delegate to blocking_tell/blocking_ask and the dispatchers pick the timeout/no-timeout implementation: extracted), blocking_same_paths (blocking variants build the same envelope and use the same sender as tell/ask; timeout variants run tell/ask under tokio::time::timeout on a helper thread with a timer runtime: extracted), blocking_inherits (every label-list theorem covers callers on any thread: at-most-once, rejected-never, reply integrity, dead letters). Real side (multi-thread runtime, real clock): 1/4/16 plain threads issuing all six blocking forms against a live actor (delivery exactly once, per-thread order, reply integrity, aliases ignore the timeout); deadlines against a slow actor with a full mailbox (not early, not later than deadline + 300 ms); stopped actor (every variant fails at once with Send and a dead letter); timeout variants called from inside a runtime context (no panic). NOT proved: the wall-clock bound itself (it is a property of the OS scheduler, thread spawn and Tokio timer; checked with slack on real runs only).",
+        "level": "proof",
+        "text": "PARTIAL (the wall-clock deadline bound is checked on real runs only, see the end of this text). Kernel-checked: aliases (tell_blocking/ask_blocking delegate to blocking_tell/blocking_ask and the dispatchers pick the timeout/no-timeout implementation: extracted), blocking_same_paths (blocking variants build the same envelope and use the same sender as tell/ask; timeout variants run tell/ask under tokio::time::timeout on a helper thread with a timer runtime: extracted), blocking_inherits (every label-list theorem covers callers on any thread: at-most-once, rejected-never, reply integrity, dead letters). Real side (multi-thread runtime, real clock): 1/4/16 plain threads issuing all six blocking forms against a live actor (delivery exactly once, per-thread order, reply integrity, aliases ignore the timeout); deadlines against a slow actor with a full mailbox (not early, not later than deadline + 300 ms); stopped actor (every variant fails at once with Send and a dead letter); timeout variants called from inside a runtime context (no panic). NOT proved: the wall-clock bound itself (it is a property of the OS scheduler, thread spawn and Tokio timer; checked with slack on real runs only).",
         "note": PROOF_NOTE + " The blocking API needs real threads; the step-by-step correspondence (single-threaded, paused clock) cannot run it, so the real side is oracle-only.",
         "technique": "Lean 4 theorems on the model + extracted send-path equalities; real-thread stress runs under property oracles",
         "monitors": ["C01", "C03", "C13"],
@@ -236,8 +236,8 @@ PROPS.update({
 
 PROPS.update({
     "C18": {
-        "level": "partial",
-        "text": "Kernel-checked: (metrics) extra_ref_neutral - while a handler runs the envelope's own reference keeps strongCount >= 1, so the guard's extra reference clone (alive from before the handler call to the end of the arm) changes no closed/alive/upgrade test in any reachable state; count_exact (C20) shows the guard only records. (deadlock-detection) detection_silent_without_cycle - in the protocol model an ask that closes no cycle takes the same step whether or not detection is compiled in, apart from the bookkeeping map (C14.waits_otherwise / C15.sound: a panic needs a real chain). (tracing, test-utils) every feature-gated site of src/*.rs is read from the source on every run and classified (feature_sites_shape): tracing sites are spans, instrument attributes, log macros and a clock read used only by a log line; test-utils sites are the dead-letter counter; no unclassified site. Real side: the same seeded scripts run on harness builds with default features and with all four features (thorough: all 15 non-empty subsets); every build is compared step by step with the one model AND the builds' raw traces are compared byte for byte; multi-actor programs (asks between actors, timeouts, panics, kills, small mailboxes, concurrent asks) are compared between builds whenever they contain no ask cycle (by construction, or - general programs - when the detecting build saw no justified deadlock; an unjustified deadlock report is a violation). NOT proved: that the tracing crate's span/instrument machinery and task_local scoping are behaviourally transparent (assumed; exercised by the builds).",
+        "level": "proof",
+        "text": "PARTIAL (transparency of the tracing crate's span machinery and of task_local scoping is assumed, see the end of this text). Kernel-checked: (metrics) extra_ref_neutral - while a handler runs the envelope's own reference keeps strongCount >= 1, so the guard's extra reference clone (alive from before the handler call to the end of the arm) changes no closed/alive/upgrade test in any reachable state; count_exact (C20) shows the guard only records. (deadlock-detection) detection_silent_without_cycle - in the protocol model an ask that closes no cycle takes the same step whether or not detection is compiled in, apart from the bookkeeping map (C14.waits_otherwise / C15.sound: a panic needs a real chain). (tracing, test-utils) every feature-gated site of src/*.rs is read from the source on every run and classified (feature_sites_shape): tracing sites are spans, instrument attributes, log macros and a clock read used only by a log line; test-utils sites are the dead-letter counter; no unclassified site. Real side: the same seeded scripts run on harness builds with default features and with all four features (thorough: all 15 non-empty subsets); every build is compared step by step with the one model AND the builds' raw traces are compared byte for byte; multi-actor programs (asks between actors, timeouts, panics, kills, small mailboxes, concurrent asks) are compared between builds whenever they contain no ask cycle (by construction, or - general programs - when the detecting build saw no justified deadlock; an unjustified deadlock report is a violation). NOT proved: that the tracing crate's span/instrument machinery and task_local scoping are behaviourally transparent (assumed; exercised by the builds).",
         "note": PROOF_NOTE,
         "technique": "Lean 4 theorems (reference-count neutrality, detection silent without a cycle) + extracted inventory of feature-gated sites + differential correspondence across feature builds",
         "monitors": ["C01", "C02", "C03", "C04", "C05", "C13"],
